@@ -19,9 +19,36 @@ Qed.
 (* the Go decoder agrees with the specification decoder wherever the latter succeeds *)
 Lemma pad_zero_0 b : pad_zero b 0 = b.
 Proof. unfold pad_zero. simpl. apply app_nil_r. Qed.
+
+Lemma byte_len_u32 v : v < two32 -> byte_len v <= 4.
+Proof.
+  intro L. change 4 with (byte_len 4294967295). apply byte_len_mono. unfold two32 in L. lia.
+Qed.
+
+(* a canonical length below 2^32 passes decodeUint's restriction of the big-integer mode to 4 or 8
+   payload bytes: its payload has exactly 4 *)
+Lemma dec_len_go_agrees d n r : dec_len d = Some (n, r) -> dec_len_go d = Some (n, r) /\ n < two32.
+Proof.
+  unfold dec_len. destruct (compact_decode d) as [[n0 r0]|] eqn:D; [|discriminate].
+  destruct (N.ltb_spec n0 two32) as [L|L]; [|discriminate].
+  intro E; injection E as <- <-. split; [|exact L].
+  unfold dec_len_go. destruct d as [|b0 t]; [discriminate|].
+  destruct (N.eqb_spec (b2n b0 mod 4) 3) as [M3|M3]; [|exact D].
+  cbn [andb].
+  assert (K : b2n b0 / 4 = 0).
+  { unfold compact_decode in D. rewrite M3 in D. cbn [N.eqb Pos.eqb] in D.
+    destruct (take (N.to_nat (b2n b0 / 4 + 4)) t) as [[x r']|]; [|discriminate].
+    destruct (N.eqb_spec (byte_len (le_val x)) (b2n b0 / 4 + 4)) as [B|B]; [|discriminate].
+    cbn [andb] in D. destruct (1073741824 <=? le_val x); [|discriminate].
+    injection D as Dn _. rewrite Dn in B. pose proof (byte_len_u32 n0 L). lia. }
+  rewrite K. exact D.
+Qed.
+
 Lemma dec_bytes_go_agrees d x r : dec_bytes d = Some (x, r) -> dec_bytes_go d = Some (x, 0, r).
 Proof.
-  unfold dec_bytes, dec_bytes_go. destruct (compact_decode d) as [[n r0]|]; [|discriminate].
+  unfold dec_bytes, dec_bytes_go. destruct (dec_len d) as [[n r0]|] eqn:DL; [|discriminate].
+  destruct (dec_len_go_agrees _ _ _ DL) as [-> L32].
+  replace (two32 <=? n) with false by (symmetry; apply N.leb_gt; exact L32).
   destruct (N.ltb_spec (N.of_nat (length r0)) n) as [L|L]; [discriminate|].
   destruct (N.eqb_spec n 0) as [->|Z].
   - unfold take. simpl. intros E; inversion E; subst. reflexivity.
@@ -37,7 +64,8 @@ Proof.
 Qed.
 Lemma dec_entries_go_agrees d es : dec_entries d = Some es -> dec_entries_go d = Some es.
 Proof.
-  unfold dec_entries, dec_entries_go. destruct (compact_decode d) as [[n r]|]; [|discriminate].
+  unfold dec_entries, dec_entries_go. destruct (dec_len d) as [[n r]|] eqn:DL; [|discriminate].
+  destruct (dec_len_go_agrees _ _ _ DL) as [-> _].
   destruct (N.of_nat (length r) <? 2 * n); [discriminate|]. apply dec_pairs_go_agrees.
 Qed.
 Lemma dec_vals_go_agrees n : forall d vs, dec_vals n d = Some vs -> dec_vals_go n d = Some vs.
@@ -48,7 +76,8 @@ Proof.
 Qed.
 Lemma dec_values_go_agrees d vs : dec_values d = Some vs -> dec_values_go d = Some vs.
 Proof.
-  unfold dec_values, dec_values_go. destruct (compact_decode d) as [[n r]|]; [|discriminate].
+  unfold dec_values, dec_values_go. destruct (dec_len d) as [[n r]|] eqn:DL; [|discriminate].
+  destruct (dec_len_go_agrees _ _ _ DL) as [-> _].
   destruct (N.of_nat (length r) <? n); [discriminate|]. apply dec_vals_go_agrees.
 Qed.
 
@@ -106,17 +135,24 @@ Definition enc_entries (es : list (list byte * value)) : list byte :=
   compact_encode (N.of_nat (length es)) ++ flat_map (fun e => enc_bytes (fst e) ++ enc_bytes (snd e)) es.
 Definition enc_values (vs : list value) : list byte :=
   compact_encode (N.of_nat (length vs)) ++ flat_map enc_bytes vs.
-Definition small {A} (l : list A) : Prop := N.of_nat (length l) < 2 ^ 536.
+Definition small {A} (l : list A) : Prop := N.of_nat (length l) < two32.
+Lemma small_536 n : n < two32 -> n < 2 ^ 536.
+Proof. intro L. apply N.lt_trans with two32; [exact L|reflexivity]. Qed.
+Lemma dec_len_encode n r : n < two32 -> dec_len (compact_encode n ++ r) = Some (n, r).
+Proof.
+  intro L. unfold dec_len. rewrite compact_decode_encode by (now apply small_536).
+  now rewrite (proj2 (N.ltb_lt _ _) L).
+Qed.
 
 Lemma dec_enc_bytes b r : small b -> dec_bytes (enc_bytes b ++ r) = Some (b, r).
 Proof.
-  intros S. unfold dec_bytes, enc_bytes. rewrite <- app_assoc, compact_decode_encode by exact S.
+  intros S. unfold dec_bytes, enc_bytes. rewrite <- app_assoc, dec_len_encode by exact S.
   rewrite app_length.
   replace (N.of_nat (length b + length r) <? N.of_nat (length b)) with false by (symmetry; apply N.ltb_ge; lia).
   rewrite Nat2N.id. apply take_app.
 Qed.
 
-Lemma compact_encode_length_ge n : n < 2 ^ 536 -> (1 <= length (compact_encode n))%nat.
+Lemma compact_encode_length_ge n : n < two32 -> (1 <= length (compact_encode n))%nat.
 Proof.
   intros L. pose proof (compact_encode_nonempty n). destruct (compact_encode n); [congruence|simpl; lia].
 Qed.
@@ -142,7 +178,7 @@ Theorem dec_enc_entries es r :
   small es -> Forall (fun e => small (fst e) /\ small (snd e)) es ->
   dec_entries (enc_entries es ++ r) = Some es.
 Proof.
-  intros S F. unfold dec_entries, enc_entries. rewrite <- app_assoc, compact_decode_encode by exact S.
+  intros S F. unfold dec_entries, enc_entries. rewrite <- app_assoc, dec_len_encode by exact S.
   pose proof (flat_pairs_length es F) as L. rewrite app_length.
   match goal with |- context [N.ltb ?a ?b] => replace (N.ltb a b) with false by (symmetry; apply N.ltb_ge; lia) end.
   rewrite Nat2N.id. now apply dec_pairs_enc.
@@ -160,7 +196,7 @@ Proof.
 Qed.
 Theorem dec_enc_values vs r : small vs -> Forall small vs -> dec_values (enc_values vs ++ r) = Some vs.
 Proof.
-  intros S F. unfold dec_values, enc_values. rewrite <- app_assoc, compact_decode_encode by exact S.
+  intros S F. unfold dec_values, enc_values. rewrite <- app_assoc, dec_len_encode by exact S.
   pose proof (flat_vals_length vs F) as L. rewrite app_length.
   match goal with |- context [N.ltb ?a ?b] => replace (N.ltb a b) with false by (symmetry; apply N.ltb_ge; lia) end.
   rewrite Nat2N.id. now apply dec_vals_enc.
